@@ -1265,8 +1265,11 @@ bool Annotator::AnnotatorImpl::isOwnedByModel(const AnyCellmlElementPtr &item) c
         break;
     case CellmlElementType::CONNECTION:
     case CellmlElementType::MAP_VARIABLES: {
+        // A connection or a variable mapping is an item of the model only when the two
+        // variables are directly equivalent (there is a map_variables element for them).
         auto variablePair = item->variablePair();
-        if (model == owningModel(variablePair->variable1())) {
+        if ((model == owningModel(variablePair->variable1()))
+            && variablePair->variable1()->hasEquivalentVariable(variablePair->variable2())) {
             itemModel = owningModel(variablePair->variable2());
         }
     } break;
